@@ -42,7 +42,7 @@ theorem Inv.createId_facts {cf ops exts c} (h : Inv cf ops exts c) {t n} (hid : 
     rw [hto] at ht
     cases o <;> cases hpc : (c.th t).pc <;> rw [hpc] at ht hid <;> simp [PC.createId, LInv] at hid ht
     · subst hid; exact ⟨ht.1, ht.2.1⟩
-    · subst hid; exact h.bornRange _ _ ht
+    · subst hid; exact h.bornRange _ _ ht.1
     · subst hid; exact h.bornRange _ _ ht.1
     · subst hid; exact h.bornRange _ _ ht.1
 
@@ -72,9 +72,11 @@ theorem Inv.assemble {cf ops exts c} (h : Inv cf ops exts c) (t : Nat) (o : Op) 
     (hucl : cf.variant = .repaired → ∀ n, InClaimed nt n → ∀ t', t' ≠ t → ¬ InClaimed (c.th t') n)
     (hset : ∀ n o, s'.born n = some o → (n, o.client) ∉ s'.delReq → nt.pc.createId ≠ some n →
       (∀ t', t' ≠ t → (c.th t').pc.createId ≠ some n) → (s'.data n).isSome = true)
-    (hbd : ∀ n o, s'.born n = some o → o.dom ∈ createDomains ops) :
+    (hbd : ∀ n o, s'.born n = some o → o.dom ∈ createDomains ops)
+    (hwb : ∀ n, s'.written n = true → ∃ o, s'.born n = some o)
+    (hg2 : ∀ n o, s'.born n = some o → s'.written n = false ∨ (s'.data n).isSome = true ∨ Unindexed s' n) :
     Inv cf ops exts ⟨s', upd c.th t nt⟩ := by
-  refine ⟨?_, ?_, hbr, hdo, hg1, hc6, hreg, ?_, ?_, h.cloudSub, ?_, hbd⟩
+  refine ⟨?_, ?_, hbr, hdo, hg1, hc6, hreg, ?_, ?_, h.cloudSub, hwb, hg2, ?_, hbd⟩
   rotate_right
   · intro n o hb hnd hall
     refine hset n o hb hnd ?_ ?_
@@ -138,19 +140,22 @@ structure SameCore (s s' : Store) : Prop where
   claims : s'.claims = s.claims
   born : s'.born = s.born
   delReq : s'.delReq = s.delReq
+  written : s'.written = s.written
 
-theorem SameCore.refl (s : Store) : SameCore s s := ⟨rfl, rfl, rfl, rfl, rfl, rfl⟩
+theorem SameCore.refl (s : Store) : SameCore s s := ⟨rfl, rfl, rfl, rfl, rfl, rfl, rfl⟩
 
 theorem SameCore.mono {s s'} (e : SameCore s s') : Mono s s' :=
-  ⟨by rw [e.next]; exact Nat.le_refl _, by intro n o h; rw [e.born]; exact h, by intro x h; rw [e.delReq]; exact h⟩
+  ⟨by rw [e.next]; exact Nat.le_refl _, by intro n o h; rw [e.born]; exact h, by intro x h; rw [e.delReq]; exact h,
+   by intro n h; rw [e.written]; exact h⟩
 
 theorem LInv.sameCore {cf upds s s'} (e : SameCore s s') {o pc} (h : LInv cf upds s o pc) : LInv cf upds s' o pc := by
-  refine LInv.frame e.mono o pc ?_ ?_ ?_ ?_ ?_ h
+  refine LInv.frame e.mono o pc ?_ ?_ ?_ ?_ ?_ ?_ h
   · intro n _ hb; rw [e.born]; exact hb
   · intro n o' _ _ _ hd; rw [e.data]; exact hd
   · intro _ n _ _ hc; rw [e.claims]; exact hc
   · intro _ n r _ _ hi; rw [e.index]; exact hi
   · intro n _ _ hu d; rw [e.index]; exact hu d
+  · intro n _ hw; rw [e.written]; exact hw
 
 theorem TInv.sameCore {cf upds s s'} (e : SameCore s s') {th} (h : TInv cf upds s th) : TInv cf upds s' th := by
   unfold TInv at h ⊢
@@ -168,7 +173,10 @@ theorem Inv.stepSame {cf ops exts c} (h : Inv cf ops exts c) (t : Nat) (o : Op) 
     (hret : ∀ k, (c.th t).pc.createId = some k → nt.pc.createId ≠ some k → ∀ o', c.st.born k = some o' →
       (k, o'.client) ∉ c.st.delReq → (c.st.data k).isSome = true) :
     Inv cf ops exts ⟨s', upd c.th t nt⟩ := by
-  refine h.assemble t o rest hto s' nt ?_ ?_ ?_ ?_ ?_ ?_ hreg ?_ ?_ ?_ ?_
+  refine h.assemble t o rest hto s' nt ?_ ?_ ?_ ?_ ?_ ?_ hreg ?_ ?_ ?_ ?_ ?_ ?_
+  rotate_right 2
+  · intro n; rw [e.written, e.born]; exact h.wBorn n
+  · intro n o'; unfold Unindexed; rw [e.born, e.written, e.data, e.index]; exact h.g2 n o'
   rotate_right 2
   · intro n o' hb hnd hnt' hoth
     rw [e.born] at hb; rw [e.delReq] at hnd; rw [e.data]
@@ -221,6 +229,7 @@ theorem Inv.fresh_unborn {cf ops exts c} (h : Inv cf ops exts c) : c.st.born (c.
 
 /-- The threads that do not move keep their facts, given how the acting thread changed the store. -/
 theorem Inv.others {cf ops exts c} (h : Inv cf ops exts c) (t : Nat) (s' : Store) (m : Mono c.st s')
+    (hwr : ∀ t', t' ≠ t → ∀ n, (c.th t').pc.createId = some n → c.st.written n = false → s'.written n = false)
     (hborn : ∀ t', t' ≠ t → ∀ n, (c.th t').pc.createId = some n → c.st.born n = none → s'.born n = none)
     (hdata : ∀ n o', c.st.born n = some o' → (n, o'.client) ∉ s'.delReq → (c.st.data n).isSome = true →
       (s'.data n).isSome = true)
@@ -237,7 +246,7 @@ theorem Inv.others {cf ops exts c} (h : Inv cf ops exts c) (t : Nat) (s' : Store
   | nil => rw [hto'] at this; exact this
   | cons o' r' =>
     rw [hto'] at this
-    refine LInv.frame m o' _ (hborn t' ht') (fun n o'' hb hn _ hd => hdata n o'' hb hn hd) ?_ ?_ ?_ this
+    refine LInv.frame m o' _ (hborn t' ht') (fun n o'' hb hn _ hd => hdata n o'' hb hn hd) ?_ ?_ ?_ (hwr t' ht') this
     · intro hv n hex hcl hc
       obtain ⟨cl, hcl'⟩ := hex
       exact hclaims hv t' ht' n ⟨cl, r', by rw [hto', hcl'], hcl⟩ hc
@@ -286,8 +295,8 @@ theorem Inv.step_create {cf ops exts c} (h : Inv cf ops exts c) (t : Nat) {cl su
       · intro k hk; rw [hpc] at hk; simp [PC.createId] at hk
   · -- cIncr
     simp only [stepCreate]
-    have hm : Mono c.st { c.st with next := c.st.next + 1 } := ⟨Nat.le_succ _, fun _ _ h => h, fun _ h => h⟩
-    have hoth := h.others t _ hm (fun _ _ _ _ hb => hb) (fun _ _ _ _ hd => hd) (fun _ _ _ _ _ hc => hc)
+    have hm : Mono c.st { c.st with next := c.st.next + 1 } := ⟨Nat.le_succ _, fun _ _ h => h, fun _ h => h, fun _ h => h⟩
+    have hoth := h.others t _ hm (fun _ _ _ _ hw => hw) (fun _ _ _ _ hb => hb) (fun _ _ _ _ hd => hd) (fun _ _ _ _ _ hc => hc)
       (fun _ _ _ _ _ _ _ _ _ hi => hi) (fun _ _ hu => hu)
     have hbr : ∀ n o, c.st.born n = some o → 1 ≤ n ∧ n ≤ c.st.next + 1 := fun n o hb =>
       ⟨(h.bornRange n o hb).1, Nat.le_succ_of_le (h.bornRange n o hb).2⟩
@@ -301,7 +310,7 @@ theorem Inv.step_create {cf ops exts c} (h : Inv cf ops exts c) (t : Nat) {cl su
       · exact hoth' t' e
     split
     · refine h.assemble t _ rest hto _ _ ?_ hoth hbr (fun n r hd => (h.dataOK n r hd).mono hm)
-        h.g1 h.c6 h.regOK ?_ ?_ ?_ h.bornDom
+        h.g1 h.c6 h.regOK ?_ ?_ ?_ h.bornDom h.wBorn h.g2
       · refine Or.inr ⟨rfl, ?_⟩
         simp only [LInv]; exact ⟨Nat.succ_le_succ (Nat.zero_le _), Nat.le_refl _, h.fresh_unborn⟩
       · intro n hn t' ht' hn'
@@ -312,7 +321,7 @@ theorem Inv.step_create {cf ops exts c} (h : Inv cf ops exts c) (t : Nat) {cl su
       · intro _ n hin; obtain ⟨_, _, _, h2⟩ := hin; simp [PC.claimed] at h2
       · intro n o hb hnd _ hoth'; exact hset n o hb hnd hoth'
     · refine h.assemble t _ rest hto _ _ ?_ hoth hbr (fun n r hd => (h.dataOK n r hd).mono hm)
-        h.g1 h.c6 h.regOK ?_ ?_ ?_ h.bornDom
+        h.g1 h.c6 h.regOK ?_ ?_ ?_ h.bornDom h.wBorn h.g2
       · exact Or.inl ⟨rfl, rfl⟩
       · intro n hn; simp [PC.createId] at hn
       · intro _ n hin; obtain ⟨_, _, _, h2⟩ := hin; simp [PC.claimed] at h2
@@ -336,13 +345,17 @@ theorem Inv.step_create {cf ops exts c} (h : Inv cf ops exts c) (t : Nat) {cl su
       simp only
       have hbn := hl.2.2
       have hm : Mono c.st { c.st with index := upd c.st.index (sub ++ "." ++ base) (some n), born := upd c.st.born n (some ⟨sub ++ "." ++ base, cl, th, tp⟩) } := by
-        refine ⟨Nat.le_refl _, ?_, fun _ h => h⟩
+        refine ⟨Nat.le_refl _, ?_, fun _ h => h, fun _ h => h⟩
         intro k o hk
         have : k ≠ n := by intro e; rw [e, hbn] at hk; cases hk
         simp only [upd_other _ _ _ _ this]; exact hk
-      refine h.assemble t _ rest hto _ _ ?_ ?_ ?_ ?_ ?_ ?_ h.regOK ?_ ?_ ?_ ?_
-      · exact Or.inr ⟨rfl, by simp [LInv]⟩
-      · refine h.others t _ hm ?_ (fun _ _ _ _ hd => hd) (fun _ _ _ _ _ hc => hc) ?_ ?_
+      have hwn : c.st.written n = false := by
+        cases hw : c.st.written n with
+        | false => rfl
+        | true => obtain ⟨o', ho'⟩ := h.wBorn n hw; rw [hbn] at ho'; cases ho'
+      refine h.assemble t _ rest hto _ _ ?_ ?_ ?_ ?_ ?_ ?_ h.regOK ?_ ?_ ?_ ?_ ?WB ?G2
+      · exact Or.inr ⟨rfl, by simp [LInv, hwn]⟩
+      · refine h.others t _ hm (fun _ _ _ _ hw => hw) ?_ (fun _ _ _ _ hd => hd) (fun _ _ _ _ _ hc => hc) ?_ ?_
         · intro t' ht' k hk hb
           have : k ≠ n := by
             intro e; subst e
@@ -394,26 +407,56 @@ theorem Inv.step_create {cf ops exts c} (h : Inv cf ops exts c) (t : Nat) {cl su
         by_cases e : k = n
         · subst e; simp only [upd_same, Option.some.injEq] at hb; subst hb; exact hdomm hopmem
         · simp only [upd_other _ _ _ _ e] at hb; exact h.bornDom k o hb
+      case WB =>
+        intro k hk
+        obtain ⟨o, ho⟩ := h.wBorn k hk
+        exact ⟨o, hm.born k o ho⟩
+      case G2 =>
+        intro k o hb
+        by_cases e : k = n
+        · subst e
+          left
+          cases hw : c.st.written k with
+          | false => rfl
+          | true => obtain ⟨o', ho'⟩ := h.wBorn k hw; rw [hbn] at ho'; cases ho'
+        · simp only [upd_other _ _ _ _ e] at hb
+          rcases h.g2 k o hb with h1 | h1 | h1
+          · exact Or.inl h1
+          · exact Or.inr (Or.inl h1)
+          · refine Or.inr (Or.inr ?_)
+            intro d hd
+            by_cases e' : d = sub ++ "." ++ base
+            · subst e'; simp only [upd_same, Option.some.injEq] at hd; exact e hd.symm
+            · simp only [upd_other _ _ _ _ e'] at hd; exact h1 d hd
   · -- cSetData n
     rename_i n
     simp only [stepCreate]
-    have hm : Mono c.st { c.st with data := upd c.st.data n (some (mkRec n cl sub base th tp)) } :=
-      ⟨Nat.le_refl _, fun _ _ h => h, fun _ h => h⟩
-    refine h.assemble t _ rest hto _ _ ?_ ?_ h.bornRange ?_ h.g1 h.c6 h.regOK ?_ ?_ ?_ h.bornDom
-    · exact Or.inr ⟨rfl, by simp [LInv, hl]⟩
-    · refine h.others t _ hm (fun _ _ _ _ hb => hb) ?_ (fun _ _ _ _ _ hc => hc)
-        (fun _ _ _ _ _ _ _ _ _ hi => hi) (fun _ _ hu => hu)
-      intro k o'' _ _ hd
+    have hm : Mono c.st { c.st with data := upd c.st.data n (some (mkRec n cl sub base th tp)), written := upd c.st.written n true } := by
+      refine ⟨Nat.le_refl _, fun _ _ h => h, fun _ h => h, ?_⟩
+      intro k hk
       by_cases e : k = n
       · subst e; simp
-      · simp only [upd_other _ _ _ _ e]; exact hd
+      · simp only [upd_other _ _ _ _ e]; exact hk
+    refine h.assemble t _ rest hto _ _ ?_ ?_ h.bornRange ?_ h.g1 h.c6 h.regOK ?_ ?_ ?_ h.bornDom ?WB ?G2
+    · exact Or.inr ⟨rfl, by simp [LInv, hl.1]⟩
+    · refine h.others t _ hm ?_ (fun _ _ _ _ hb => hb) ?_ (fun _ _ _ _ _ hc => hc)
+        (fun _ _ _ _ _ _ _ _ _ hi => hi) (fun _ _ hu => hu)
+      · intro t' ht' k hk hw
+        have : k ≠ n := by
+          intro e; subst e
+          exact h.uniqId t' t k ht' hk (by rw [hpc]; rfl)
+        simp only [upd_other _ _ _ _ this]; exact hw
+      · intro k o'' _ _ hd
+        by_cases e : k = n
+        · subst e; simp
+        · simp only [upd_other _ _ _ _ e]; exact hd
     · intro k r hd
       by_cases e : k = n
       · subst e
         simp only [upd_same, Option.some.injEq] at hd
         subst hd
-        exact ⟨_, hl, rfl, rfl, rfl, Or.inl ⟨rfl, rfl⟩⟩
-      · simp only [upd_other _ _ _ _ e] at hd; exact h.dataOK k r hd
+        exact ⟨_, hl.1, rfl, rfl, rfl, Or.inl ⟨rfl, rfl⟩, by simp⟩
+      · simp only [upd_other _ _ _ _ e] at hd; exact (h.dataOK k r hd).mono hm
     · intro k hk t' ht'
       simp only [PC.createId, Option.some.injEq] at hk; subst hk
       exact h.uniqId t t' _ (fun e => ht' e.symm) (by rw [hpc]; rfl)
@@ -427,11 +470,21 @@ theorem Inv.step_create {cf ops exts c} (h : Inv cf ops exts c) (t : Nat) {cl su
         by_cases e' : t' = t
         · subst e'; rw [hpc]; simp only [PC.createId]; intro e''; injection e'' with e''; exact e e''.symm
         · exact hoth' t' e'
+    case WB =>
+      intro k hk
+      by_cases e : k = n
+      · subst e; exact ⟨_, hl.1⟩
+      · simp only [upd_other _ _ _ _ e] at hk; exact h.wBorn k hk
+    case G2 =>
+      intro k o hb
+      by_cases e : k = n
+      · subst e; right; left; simp
+      · simp only [upd_other _ _ _ _ e]; exact h.g2 k o hb
   · -- cAppC n
     rename_i n
     simp only [stepCreate]
     refine h.stepSame t _ rest hto _ ?_ ?_ _ ?_ ?_ ?_ ?_
-    · exact ⟨rfl, rfl, rfl, rfl, rfl, rfl⟩
+    · exact ⟨rfl, rfl, rfl, rfl, rfl, rfl, rfl⟩
     · exact h.regOK
     · exact Or.inr ⟨rfl, by simpa [LInv] using hl⟩
     · intro k hk; rw [hpc]; exact hk
@@ -441,7 +494,7 @@ theorem Inv.step_create {cf ops exts c} (h : Inv cf ops exts c) (t : Nat) {cl su
     rename_i n
     simp only [stepCreate]
     refine h.stepSame t _ rest hto _ ?_ ?_ _ ?_ ?_ ?_ ?_
-    · exact ⟨rfl, rfl, rfl, rfl, rfl, rfl⟩
+    · exact ⟨rfl, rfl, rfl, rfl, rfl, rfl, rfl⟩
     · exact h.regOK
     · exact Or.inl ⟨rfl, rfl⟩
     · simp [PC.createId]
@@ -449,7 +502,7 @@ theorem Inv.step_create {cf ops exts c} (h : Inv cf ops exts c) (t : Nat) {cl su
     · intro k hk _ o' hb hnd
       rw [hpc] at hk; simp only [PC.createId, Option.some.injEq] at hk; subst hk
       rw [hl.1] at hb; injection hb with hb; subst hb
-      exact hl.2 hnd
+      exact hl.2.1 hnd
 
 end Tunnox.C19
 namespace Tunnox.C19
@@ -474,10 +527,10 @@ theorem Inv.step_delete {cf ops exts c} (h : Inv cf ops exts c) (t : Nat) {n cl 
   · -- idle: the request is recorded
     simp only [stepDelete]
     have hm : Mono c.st { c.st with delReq := (n, cl) :: c.st.delReq } :=
-      ⟨Nat.le_refl _, fun _ _ h => h, fun _ h => List.mem_cons_of_mem _ h⟩
-    refine h.assemble t _ rest hto _ _ ?_ ?_ h.bornRange ?_ ?_ h.c6 h.regOK ?_ ?_ ?SET h.bornDom
+      ⟨Nat.le_refl _, fun _ _ h => h, fun _ h => List.mem_cons_of_mem _ h, fun _ h => h⟩
+    refine h.assemble t _ rest hto _ _ ?_ ?_ h.bornRange ?_ ?_ h.c6 h.regOK ?_ ?_ ?SET h.bornDom h.wBorn h.g2
     · exact Or.inr ⟨rfl, by simp [LInv]⟩
-    · exact h.others t _ hm (fun _ _ _ _ hb => hb) (fun _ _ _ _ hd => hd) (fun _ _ _ _ _ hc => hc)
+    · exact h.others t _ hm (fun _ _ _ _ hw => hw) (fun _ _ _ _ hb => hb) (fun _ _ _ _ hd => hd) (fun _ _ _ _ _ hc => hc)
         (fun _ _ _ _ _ _ _ _ _ hi => hi) (fun _ _ hu => hu)
     · intro k r hd; exact (h.dataOK k r hd).mono hm
     · intro hv k o hk hnd
@@ -548,10 +601,10 @@ theorem Inv.step_delete {cf ops exts c} (h : Inv cf ops exts c) (t : Nat) {n cl 
       · intro k hk; rw [hpc] at hk; simp [PC.createId] at hk
     | false =>
       simp only [Bool.false_eq_true, if_false]
-      have hm : Mono c.st { c.st with claims := upd c.st.claims n true } := ⟨Nat.le_refl _, fun _ _ h => h, fun _ h => h⟩
-      refine h.assemble t _ rest hto _ _ ?_ ?_ h.bornRange ?_ h.g1 h.c6 h.regOK ?_ ?_ ?SET h.bornDom
+      have hm : Mono c.st { c.st with claims := upd c.st.claims n true } := ⟨Nat.le_refl _, fun _ _ h => h, fun _ h => h, fun _ h => h⟩
+      refine h.assemble t _ rest hto _ _ ?_ ?_ h.bornRange ?_ h.g1 h.c6 h.regOK ?_ ?_ ?SET h.bornDom h.wBorn h.g2
       · exact Or.inr ⟨rfl, by simp only [LInv]; exact ⟨hl.1.mono hm, hl.2, by simp⟩⟩
-      · refine h.others t _ hm (fun _ _ _ _ hb => hb) (fun _ _ _ _ hd => hd) ?_
+      · refine h.others t _ hm (fun _ _ _ _ hw => hw) (fun _ _ _ _ hb => hb) (fun _ _ _ _ hd => hd) ?_
           (fun _ _ _ _ _ _ _ _ _ hi => hi) (fun _ _ hu => hu)
         intro _ t' _ k _ hk
         by_cases e : k = n
@@ -599,13 +652,13 @@ theorem Inv.step_delete {cf ops exts c} (h : Inv cf ops exts c) (t : Nat) {n cl 
   · -- dIdxDel r
     rename_i r
     simp only [stepDelete]
-    have hm : Mono c.st { c.st with index := upd c.st.index r.FullDomain none } := ⟨Nat.le_refl _, fun _ _ h => h, fun _ h => h⟩
+    have hm : Mono c.st { c.st with index := upd c.st.index r.FullDomain none } := ⟨Nat.le_refl _, fun _ _ h => h, fun _ h => h, fun _ h => h⟩
     have hun : ∀ k, Unindexed c.st k → Unindexed { c.st with index := upd c.st.index r.FullDomain none } k := by
       intro k hu d
       by_cases e : d = r.FullDomain
       · subst e; simp
       · simp only [upd_other _ _ _ _ e]; exact hu d
-    refine h.assemble t _ rest hto _ _ ?_ ?_ h.bornRange ?_ ?_ ?_ h.regOK ?_ ?_ ?SET h.bornDom
+    refine h.assemble t _ rest hto _ _ ?_ ?_ h.bornRange ?_ ?_ ?_ h.regOK ?_ ?_ ?SET h.bornDom h.wBorn ?G2
     · refine Or.inr ⟨rfl, ?_⟩
       simp only [LInv]
       refine ⟨hl.1.mono hm, fun hv => (hl.2 hv).1, ?_⟩
@@ -615,7 +668,7 @@ theorem Inv.step_delete {cf ops exts c} (h : Inv cf ops exts c) (t : Nat) {n cl 
       · simp only [upd_other _ _ _ _ e] at hd
         obtain ⟨o, ho, hod⟩ := h.c6 d n hd
         exact e (by rw [← hod]; exact ((hl.1.2.2.origin_eq ho).1).symm)
-    · refine h.others t _ hm (fun _ _ _ _ hb => hb) (fun _ _ _ _ hd => hd) (fun _ _ _ _ _ hc => hc) ?_ (fun k _ hu => hun k hu)
+    · refine h.others t _ hm (fun _ _ _ _ hw => hw) (fun _ _ _ _ hb => hb) (fun _ _ _ _ hd => hd) (fun _ _ _ _ _ hc => hc) ?_ (fun k _ hu => hun k hu)
       intro hv t' ht' k r' cl' rest' hto' hpc' hi'
       have : r'.FullDomain ≠ r.FullDomain := by
         intro e
@@ -646,13 +699,19 @@ theorem Inv.step_delete {cf ops exts c} (h : Inv cf ops exts c) (t : Nat) {n cl 
     case SET =>
       intro k o hb hnd _ hoth
       exact h.settled_old t (by rw [hpc]; rfl) k o hb hnd hoth
+    case G2 =>
+      intro k o hb
+      rcases h.g2 k o hb with h1 | h1 | h1
+      · exact Or.inl h1
+      · exact Or.inr (Or.inl h1)
+      · exact Or.inr (Or.inr (hun k h1))
   · -- dData r
     rename_i r
     simp only [stepDelete]
-    have hm : Mono c.st { c.st with data := upd c.st.data n none } := ⟨Nat.le_refl _, fun _ _ h => h, fun _ h => h⟩
-    refine h.assemble t _ rest hto _ _ ?_ ?_ h.bornRange ?_ h.g1 h.c6 h.regOK ?_ ?_ ?SET h.bornDom
+    have hm : Mono c.st { c.st with data := upd c.st.data n none } := ⟨Nat.le_refl _, fun _ _ h => h, fun _ h => h, fun _ h => h⟩
+    refine h.assemble t _ rest hto _ _ ?_ ?_ h.bornRange ?_ h.g1 h.c6 h.regOK ?_ ?_ ?SET h.bornDom h.wBorn ?G2
     · exact Or.inr ⟨rfl, by simp only [LInv]; exact ⟨hl.1.mono hm, hl.2.1, hl.2.2⟩⟩
-    · refine h.others t _ hm (fun _ _ _ _ hb => hb) ?_ (fun _ _ _ _ _ hc => hc)
+    · refine h.others t _ hm (fun _ _ _ _ hw => hw) (fun _ _ _ _ hb => hb) ?_ (fun _ _ _ _ _ hc => hc)
         (fun _ _ _ _ _ _ _ _ _ hi => hi) (fun _ _ hu => hu)
       intro k o' hb hnd hd
       by_cases e : k = n
@@ -679,10 +738,15 @@ theorem Inv.step_delete {cf ops exts c} (h : Inv cf ops exts c) (t : Nat) {n cl 
         exact hnd (by rw [← this, hl.1.2.1]; exact hl.1.1)
       · simp only [upd_other _ _ _ _ e]
         exact h.settled_old t (by rw [hpc]; rfl) k o hb hnd hoth
+    case G2 =>
+      intro k o hb
+      by_cases e : k = n
+      · subst e; exact Or.inr (Or.inr hl.2.2)
+      · simp only [upd_other _ _ _ _ e]; exact h.g2 k o hb
   · -- dRemC r
     simp only [stepDelete]
     refine h.stepSame t _ rest hto _ ?_ ?_ _ ?_ ?_ ?_ ?_
-    · exact ⟨rfl, rfl, rfl, rfl, rfl, rfl⟩
+    · exact ⟨rfl, rfl, rfl, rfl, rfl, rfl, rfl⟩
     · exact h.regOK
     · exact Or.inr ⟨rfl, by simpa only [LInv] using hl⟩
     · simp [PC.createId]
@@ -694,7 +758,7 @@ theorem Inv.step_delete {cf ops exts c} (h : Inv cf ops exts c) (t : Nat) {n cl 
     | repaired =>
       simp only
       refine h.stepSame t _ rest hto _ ?_ ?_ _ ?_ ?_ ?_ ?_
-      · exact ⟨rfl, rfl, rfl, rfl, rfl, rfl⟩
+      · exact ⟨rfl, rfl, rfl, rfl, rfl, rfl, rfl⟩
       · exact h.regOK
       · refine Or.inr ⟨rfl, ?_⟩
         simp only [LInv]
@@ -705,7 +769,7 @@ theorem Inv.step_delete {cf ops exts c} (h : Inv cf ops exts c) (t : Nat) {n cl 
     | asFound =>
       simp only
       refine h.stepSame t _ rest hto _ ?_ ?_ _ ?_ ?_ ?_ ?_
-      · exact ⟨rfl, rfl, rfl, rfl, rfl, rfl⟩
+      · exact ⟨rfl, rfl, rfl, rfl, rfl, rfl, rfl⟩
       · exact h.regOK
       · exact Or.inl ⟨rfl, rfl⟩
       · simp [PC.createId]
@@ -713,10 +777,10 @@ theorem Inv.step_delete {cf ops exts c} (h : Inv cf ops exts c) (t : Nat) {n cl 
       · intro k hk; rw [hpc] at hk; simp [PC.createId] at hk
   · -- dRelease
     simp only [stepDelete]
-    have hm : Mono c.st { c.st with claims := upd c.st.claims n false } := ⟨Nat.le_refl _, fun _ _ h => h, fun _ h => h⟩
-    refine h.assemble t _ rest hto _ _ ?_ ?_ h.bornRange ?_ h.g1 h.c6 h.regOK ?_ ?_ ?SET h.bornDom
+    have hm : Mono c.st { c.st with claims := upd c.st.claims n false } := ⟨Nat.le_refl _, fun _ _ h => h, fun _ h => h, fun _ h => h⟩
+    refine h.assemble t _ rest hto _ _ ?_ ?_ h.bornRange ?_ h.g1 h.c6 h.regOK ?_ ?_ ?SET h.bornDom h.wBorn h.g2
     · exact Or.inl ⟨rfl, rfl⟩
-    · refine h.others t _ hm (fun _ _ _ _ hb => hb) (fun _ _ _ _ hd => hd) ?_
+    · refine h.others t _ hm (fun _ _ _ _ hw => hw) (fun _ _ _ _ hb => hb) (fun _ _ _ _ hd => hd) ?_
         (fun _ _ _ _ _ _ _ _ _ hi => hi) (fun _ _ hu => hu)
       intro hv t' ht' k hin hk
       have : k ≠ n := by
@@ -769,8 +833,9 @@ theorem Inv.step_update {cf ops exts c} (h : Inv cf ops exts c) (t : Nat) {n st 
       · exact h.regOK
       · refine Or.inr ⟨rfl, ?_⟩
         simp only [LInv]
-        obtain ⟨o, ho, h1, h2, h3, _⟩ := h.dataOK n r hd
-        exact ⟨o, ho, h1, h2, h3, Or.inr hmem⟩
+        obtain ⟨o, ho, h1, h2, h3, _, h5⟩ := h.dataOK n r hd
+        refine ⟨⟨o, ho, h1, h2, h3, Or.inr hmem, h5⟩, ?_⟩
+        simp
       · simp [PC.createId]
       · simp [PC.claimed]
       · intro k hk; rw [hpc] at hk; simp [PC.createId] at hk
@@ -815,10 +880,10 @@ theorem Inv.step_update {cf ops exts c} (h : Inv cf ops exts c) (t : Nat) {n st 
   · -- uSet r
     rename_i r
     simp only [stepUpdate]
-    have hm : Mono c.st { c.st with data := upd c.st.data n (some r) } := ⟨Nat.le_refl _, fun _ _ h => h, fun _ h => h⟩
-    refine h.assemble t _ rest hto _ _ ?_ ?_ h.bornRange ?_ h.g1 h.c6 h.regOK ?_ ?_ ?SET h.bornDom
+    have hm : Mono c.st { c.st with data := upd c.st.data n (some r) } := ⟨Nat.le_refl _, fun _ _ h => h, fun _ h => h, fun _ h => h⟩
+    refine h.assemble t _ rest hto _ _ ?_ ?_ h.bornRange ?_ h.g1 h.c6 h.regOK ?_ ?_ ?SET h.bornDom h.wBorn ?G2
     · exact Or.inl ⟨rfl, rfl⟩
-    · refine h.others t _ hm (fun _ _ _ _ hb => hb) ?_ (fun _ _ _ _ _ hc => hc)
+    · refine h.others t _ hm (fun _ _ _ _ hw => hw) (fun _ _ _ _ hb => hb) ?_ (fun _ _ _ _ _ hc => hc)
         (fun _ _ _ _ _ _ _ _ _ hi => hi) (fun _ _ hu => hu)
       intro k o' _ _ hd
       by_cases e : k = n
@@ -829,7 +894,7 @@ theorem Inv.step_update {cf ops exts c} (h : Inv cf ops exts c) (t : Nat) {n st 
       · subst e
         simp only [upd_same, Option.some.injEq] at hd
         subst hd
-        exact hl.mono hm
+        exact hl.1.mono hm
       · simp only [upd_other _ _ _ _ e] at hd; exact h.dataOK k r' hd
     · intro k hk; simp [PC.createId] at hk
     · intro _ k hin; obtain ⟨_, _, _, h2⟩ := hin; simp [PC.claimed] at h2
@@ -839,6 +904,11 @@ theorem Inv.step_update {cf ops exts c} (h : Inv cf ops exts c) (t : Nat) {n st 
       · subst e; simp
       · simp only [upd_other _ _ _ _ e]
         exact h.settled_old t (by rw [hpc]; rfl) k o hb hnd hoth
+    case G2 =>
+      intro k o hb
+      by_cases e : k = n
+      · subst e; right; left; simp
+      · simp only [upd_other _ _ _ _ e]; exact h.g2 k o hb
 
 theorem registerPM_ok {cf : Config} {exts : List PM} {reg : String → Option PM} {m : PM}
     (hreg : ∀ k m', reg k = some m' → m' ∈ exts ∧ m'.fullDomain = k) (hm : m ∈ exts) :
@@ -968,7 +1038,7 @@ theorem Inv.step_lookup {cf ops exts c} (h : Inv cf ops exts c) (t : Nat) {host 
       | route a b c' d =>
         simp only
         refine h.stepSame t _ rest hto _ ?_ ?_ _ ?_ ?_ ?_ ?_
-        · exact ⟨rfl, rfl, rfl, rfl, rfl, rfl⟩
+        · exact ⟨rfl, rfl, rfl, rfl, rfl, rfl, rfl⟩
         · exact registerPM_ok h.regOK hmem
         · exact Or.inl ⟨rfl, rfl⟩
         · simp [PC.createId]
